@@ -71,40 +71,30 @@ def holds {V : Type} [DecidableEq V] (o : Obs V) : Bool :=
     o.mid.all (fun m => decide (m = o.probesBefore) || decide (m = o.probesAfter)) &&
     successDisk o
 
-/-! ### Classes of requests for which the unchanged code is known to break the property
-    (input classes: they do not look at the state after the request). -/
+/-! ### The one class of requests for which the code is still known to break the property
+    (it does not look at the state after the request). -/
 
-/-- The request got past `ParsePayload` and failed afterwards. -/
-def lateFailure {V : Type} (o : Obs V) : Bool :=
-  o.status ≠ 200 && (o.phase = .cleanup || o.phase = .save || o.phase = .reload)
-
-def hasMetricsItem (items : Option (List Item)) : Bool :=
-  match items with
-  | none => false
-  | some is => is.any (fun i => decide (i.path = .userMetrics))
-
-/-- The payload carries a metrics configuration and the user metrics file does not exist at the
-    moment it is saved (`/apply_flows` has just removed it). -/
-def metricsMismatch {V : Type} (o : Obs V) : Bool :=
-  hasMetricsItem o.items &&
-  (o.ep = .applyFlows || (o.before.get .userMetrics).isNone)
+/-- The failed request had already switched engines once: two switch points were reached
+    (first reload: Initialize succeeded, engine switched, then HAProxy / metrics failed; second
+    reload after the restore). Between the two switches traffic is served by the REJECTED
+    configuration. -/
+def switchedThenFailed {V : Type} (o : Obs V) : Bool :=
+  o.status ≠ 200 && decide (2 ≤ o.mid.length)
 
 /-- The known-finding classifier (`none` = outside every known class). -/
 def finding {V : Type} (o : Obs V) : Option String :=
-  if !o.methodPut then some "F08e"            -- method check answers 405 without returning
-  else if o.status ≠ 200 then
-    if lateFailure o then
-      (match o.ep with
-       | .configuration => some "F08a"        -- Restore is a no-op
-       | .applyFlows => some "F08b")          -- no backup at all, starts with CleanAll
-    else none
-  else if metricsMismatch o then some "F08d"  -- metrics written outside the scope of the backup
-  else if o.gate then some "F08c"             -- engine published before Initialize()
-  else none
+  if switchedThenFailed o then some "F08f" else none
 
-/-- Paths of a payload: no duplicates, never the built-in metrics file. -/
-def itemsWF (items : List Item) : Prop :=
-  (itemPaths items).Nodup ∧ Path.defaultMetrics ∉ itemPaths items
+/-- Steps of `Restore()` and of the part of the reload after it that precedes the switch: a fault
+    there is a second fault on top of the one being rolled back, which no in-place protocol can
+    undo. The property is stated (and judged) for fault plans without such steps. -/
+def Step.inRestore : Step → Bool
+  | .restoreRead | .restoreStore _ => true
+  | .validate r | .initialize r => decide (r = 2)
+  | _ => false
+
+/-- A payload never names the built-in metrics file (the JSON has no field for it). -/
+def itemsWF (items : List Item) : Prop := Path.defaultMetrics ∉ itemPaths items
 
 def bodyItems : Body → Option (List Item)
   | .payload items => some items
